@@ -168,8 +168,12 @@ def takeEntries : Nat → List String → Option (List Vesting.Entry × List Str
 def from? : String → Option From
   | "none" => some .none | "bad" => some .bad | "good" => some .good | _ => none
 
+/-- `raw=<name>:<hex>` tokens are concretisation hints for the harness (the spelling of an address / bech32 field whose
+only model-relevant features are EXT flags on the line); the model ignores them. -/
+def modelFields (line : String) : List String := (fields line).filter (fun t => !t.startsWith "raw=")
+
 def stepO (st : St) (line : String) : Option (St × String) :=
-  match fields line with
+  match modelFields line with
   | ["reset"] => some (fresh, "ok")
   | ["create", ab, ch, cs, co, sg, me] => do
     let p ← clientProp? ab ch cs co
@@ -184,7 +188,8 @@ def stepO (st : St) (line : String) : Option (St × String) :=
     let e : Env := { sig := ← sig? sg, marshalErr := ← b? me }
     pure (resX st (clientValidateBasic p) (handleToggle e st.x p))
   | ["relayer", ab, ao, nc, na, co] => do
-    let p : RelayerProp := { absOk := ← b? ab, addrOk := ← b? ao, nChains := ← parseNat? nc, nAddrs := ← parseNat? na, chainsOk := ← b? co }
+    let a ← (match ao with | "1" => some AddrStr.good | "0" => some AddrStr.bad | "e" => some AddrStr.empty | _ => none)
+    let p : RelayerProp := { absOk := ← b? ab, addr := a, nChains := ← parseNat? nc, nAddrs := ← parseNat? na, chainsOk := ← b? co }
     pure (resX st (relayerValidateBasic p) (handleRelayer st.x p))
   | "xgen" :: r => do
     let g ← xgen? r
@@ -220,8 +225,8 @@ def stepO (st : St) (line : String) : Option (St × String) :=
   | ["trace", vo, eo] => do pure (resU st (flagV (← b? vo)) (handleEvmOnly (← b? eo)))
   | ["disable", vo, eo] => do pure (resU st (flagV (← b? vo)) (handleEvmOnly (← b? eo)))
   | ["enable", ao, tp, lim, mx, mn, ab, eo] => do
-    let p : LimitProp := { addrOk := ← b? ao, period := ← num? tp, limit := ← num? lim, maxAmt := ← num? mx,
-                           minAmt := ← num? mn, absOk := ← b? ab }
+    let p : LimitProp := { addrOk := ← b? ao, period := ← str? tp, limit := ← str? lim, maxAmt := ← str? mx,
+                           minAmt := ← str? mn, absOk := ← b? ab }
     pure (resU st (limitValidateBasic p) (handleEnableLimit (← b? eo) p))
   | "agen" :: en :: n :: r => do
     let (ps, r') ← takePairs (← parseNat? n) r
